@@ -668,11 +668,14 @@ class Emit:
         self.unit = unit; self.items = items
         self.ints = unit.get("ints", "nat")
         self.typemap = dict(unit.get("types", {}))
-        self.externs = unit.get("externs", {})        # name -> lean type
+        self.externs = unit.get("externs", {})        # name -> lean type | {"type":…, "eff":bool, "result":bool}
         self.local_fns = {}                             # rust key -> (lean name, item)
         self.enums = {}; self.structs = {}
         self.consts = set()
         self.uses_ext = set()
+        self.effects = bool(unit.get("effects"))
+        self.ext_methods = unit.get("ext_methods", {})
+        self.pre = []; self.qn = 0; self.cur_opt = False
         self.skip_macros = set(unit.get("skip_macros", ["tracing::debug","tracing::info","tracing::warn","tracing::trace","tracing::error","debug_assert","debug_assert_eq","assert","assert_eq","println","eprintln"]))
     # ---- types
     def ty(self, t):
@@ -730,8 +733,11 @@ class Emit:
         if k in ("tuple","array"): return all(self.pure_expr(x) for x in e[1])
         if k == "field" or k == "tfield": return self.pure_expr(e[1])
         if k == "index": return self.pure_expr(e[1]) and self.pure_expr(e[2])
-        if k == "call": return self.pure_expr(e[1]) and all(self.pure_expr(x) for x in e[2])
+        if k == "call":
+            if self.effects and self.call_is_effectful(e): return False
+            return self.pure_expr(e[1]) and all(self.pure_expr(x) for x in e[2])
         if k == "mcall":
+            if self.effects and self.call_is_effectful(e): return False
             if e[2] in ("push","push_str","insert","remove","clear","extend","sort","truncate"): return False
             if self.is_mut_method(e[2]): return False
             return self.pure_expr(e[1]) and all(self.pure_expr(x) for x in e[3])
@@ -845,7 +851,17 @@ class Emit:
             if op in ("<", "<=", ">", ">="):
                 return f"(decide ({self.ex(e[2])} {op} {self.ex(e[3])}))"
             return f"({self.ex(e[2])} {self.BINOP[op]} {self.ex(e[3])})"
-        if k == "try": return f"(← {self.ex(e[1])})"
+        if k == "try":
+            inner = e[1]
+            if inner[0] in ("call", "mcall"):
+                raw, eff, res = self._call(inner) if inner[0] == "call" else self._mcall(inner)
+                if eff and res: return f"(← {raw})"
+                val = f"(← {raw})" if eff else raw
+            else:
+                val = self.ex(inner)
+            if self.cur_opt: return self.hoist_opt(val)
+            if self.effects: return f"(← Rs.liftE {val})"
+            return f"(← {val})"
         if k == "tuple":
             if not e[1]: return "()"
             return "(" + ", ".join(self.ex(x) for x in e[1]) + ")"
@@ -872,8 +888,10 @@ class Emit:
                 if base is not None: return "{ " + self.ex(base) + " with " + body + " }"
                 return "{ " + body + " : " + path[-1] + " }"
             return "(" + self.ctor_path(path) + " " + " ".join(f"({lname(f)} := {self.ex(v)})" for f, v in fs) + ")"
-        if k == "call": return self.call(e)
-        if k == "mcall": return self.mcall(e)
+        if k in ("call", "mcall"):
+            raw, eff, res = self._call(e) if k == "call" else self._mcall(e)
+            if not eff: return raw
+            return f"(← Rs.capture {raw})" if res else f"(← {raw})"
         if k == "closure":
             ps = " ".join(self.pat(p) if p[0] in ("bind", "wild") else "(" + self.pat(p) + ")" for p in e[1]) or "_"
             if not self.pure_expr(e[2]): raise Unsupported("closure with a statement body")
@@ -915,39 +933,70 @@ class Emit:
         for k in (key, p[-1]):
             if k in self.local_fns: return self.local_fns[k]
         return None
-    def call(self, e):
+    def call_is_effectful(self, e):
+        """syntactic test (no emission): does this call / method call run in the effect monad?"""
+        if e[0] == "call" and e[1][0] == "path":
+            path = e[1][1]
+            lf = self.fn_ref(path)
+            if lf: return lf[0] in self.fns_using_ext
+            name = "_".join(path)
+            x = self.externs.get(name, self.externs.get(path[-1]))
+            return isinstance(x, dict) and x.get("eff", False)
+        if e[0] == "mcall":
+            if e[2] in self.ext_methods: return True
+            for key, (ln, it) in self.local_fns.items():
+                if it["name"] == e[2] and it["owner"] and ln in self.fns_using_ext and len(it["params"]) == len(e[3]): return True
+        return False
+    def hoist_opt(self, val):
+        self.qn += 1
+        self.pre.append(f"let __q{self.qn} ← match {val} with | some v => pure v | none => return none")
+        return f"__q{self.qn}"
+    def _call(self, e):
         f, args = e[1], e[2]
         a = [self.atom(x) for x in args]
         if f[0] == "path":
             path = f[1]
-            if path == ["Some"]: return f"(some {a[0]})"
-            if path == ["Ok"]: return f"(Except.ok {a[0]})"
-            if path == ["Err"]: return f"(Except.error {a[0]})"
-            if path in (["Vec", "new"], ["Vec", "with_capacity"]): return "[]"
+            P_ = lambda x: (x, False, False)
+            if path == ["Some"]: return P_(f"(some {a[0]})")
+            if path == ["Ok"]: return P_(f"(Except.ok {a[0]})")
+            if path == ["Err"]: return P_(f"(Except.error {a[0]})")
+            if path in (["Vec", "new"], ["Vec", "with_capacity"], ["HashMap", "new"], ["HashSet", "new"]) or path[-2:] in (["HashMap", "new"], ["HashSet", "new"]): return P_("[]")
             if len(path) == 2 and path[1] == "default" and not args and (path[0] in self.structs or path[0] == "Self"):
-                return f"(default : {self.cur_owner if path[0] == 'Self' else path[0]})"
-            if path == ["String", "new"]: return "[]"
-            if path in (["PathBuf", "from"], ["String", "from"]): return a[0]
+                return P_(f"(default : {self.cur_owner if path[0] == 'Self' else path[0]})")
+            if path == ["String", "new"]: return P_("[]")
+            if path in (["PathBuf", "from"], ["String", "from"]): return P_(a[0])
             lf = self.fn_ref(path)
             if lf:
                 ln, it = lf
                 pre = ["ext"] if ln in self.fns_using_ext else []
+                if it.get("_used"):
+                    pre = [it["_ext"]] if it.get("_ext") else []
+                    if pre: self.cur_uses_ext = True
+                    return ("(" + " ".join([ln] + pre + a) + ")" if (pre or a) else ln, False, False)
                 if pre: self.cur_uses_ext = True
                 if it["self"]: raise Unsupported(f"UFCS call of method {ln}")
-                return "(" + " ".join([ln] + pre + a) + ")" if (pre or a) else ln
+                return ("(" + " ".join([ln] + pre + a) + ")" if (pre or a) else ln, bool(pre) and self.effects, self.is_result(it["ret"]))
             name = "_".join(path)
             if name in self.externs or path[-1] in self.externs:
                 nm = name if name in self.externs else path[-1]
                 self.cur_uses_ext = True
-                return "(" + " ".join([f"ext.{lname(nm)}"] + (a or ["()"])) + ")"
+                x = self.externs[nm]
+                eff = isinstance(x, dict) and x.get("eff", False); res = isinstance(x, dict) and x.get("result", False)
+                return ("(" + " ".join([f"ext.{lname(nm)}"] + (a or ["()"])) + ")", eff, res)
+            cm = self.unit.get("ctors", {})
+            if "::".join(path[-2:]) in cm:
+                return ("(" + " ".join([cm["::".join(path[-2:])]] + a) + ")", False, False)
             # enum tuple-variant constructor
             if len(path) >= 2 and (path[-2] in self.enums or path[-2] == "Self"):
-                return "(" + " ".join([self.ctor_path(path)] + a) + ")"
+                return ("(" + " ".join([self.ctor_path(path)] + a) + ")", False, False)
             raise Unsupported(f"call of unknown function {'::'.join(path)}")
         raise Unsupported("call of a non-path expression")
-    def mcall(self, e):
+    def _mcall(self, e):
         recv, m, args = e[1], e[2], e[3]
-        if m in ERASED_METHODS and not args: return self.ex(recv)
+        if (m in ERASED_METHODS and not args) or m in ("map_err", "with_context", "context"): return (self.ex(recv), False, False)
+        if m in self.ext_methods:
+            em = self.ext_methods[m]; self.cur_uses_ext = True
+            return ("(" + " ".join([f"ext.{em['name']}", self.atom(recv)] + [self.atom(x) for x in args]) + ")", True, em.get("result", False))
         # method of a type translated in this unit (non-mutating)
         for exact in (True, False):
             for key, (ln, it) in self.local_fns.items():
@@ -956,12 +1005,12 @@ class Emit:
                         else (recv != ("path", ["self"]) and self.unit.get("methods", {}).get(m) == it["owner"])):
                     pre = ["ext"] if ln in self.fns_using_ext else []
                     if pre: self.cur_uses_ext = True
-                    return "(" + " ".join([ln] + pre + [self.atom(recv)] + [self.atom(x) for x in args]) + ")"
+                    return ("(" + " ".join([ln] + pre + [self.atom(recv)] + [self.atom(x) for x in args]) + ")", bool(pre) and self.effects, self.is_result(it["ret"]))
         if m == "map_or" and len(args) == 2 and args[1][0] == "closure" and len(args[1][1]) == 1:
             p = self.pat(args[1][1][0])
-            return f"(match {self.ex(recv)} with | some {p} => {self.ex(args[1][2])} | none => {self.ex(args[0])})"
-        if m == "unwrap" and not args: return f"(Rs.unwrap {self.atom(recv)})"
-        return "(" + " ".join([f"Rs.{lname(m)}", self.atom(recv)] + [self.atom(x) for x in args]) + ")"
+            return (f"(match {self.ex(recv)} with | some {p} => {self.ex(args[1][2])} | none => {self.ex(args[0])})", False, False)
+        if m == "unwrap" and not args: return (f"(Rs.unwrap {self.atom(recv)})", False, False)
+        return ("(" + " ".join([f"Rs.{lname(m)}", self.atom(recv)] + [self.atom(x) for x in args]) + ")", False, False)
     def macro(self, e):
         name = "::".join(e[1])
         if name == "matches":
@@ -980,6 +1029,8 @@ class Emit:
                 if sub.eat(";"): return f"(List.replicate {self.ex(sub.expr())} {self.ex(xs[0])})"
                 if not sub.eat(","): break
             return "[" + ", ".join(self.ex(x) for x in xs) + "]"
+        if name == "format" and self.unit.get("opaque_format"):
+            return "Rs.opaqueMsg"
         if name == "format":
             sub = P(list(e[2]) + [("eof", "", 0)], "macro")
             t = sub.peek()
@@ -1000,7 +1051,33 @@ class Emit:
             self.cur_uses_ext = True
             return f"(ext.{self.unit['macro_externs'][name]} ())"
         raise Unsupported(f"macro {name}!")
+    def desugar_guards(self, e):
+        """`P if g => A` followed later by an arm `Q => B` that takes everything P takes (the same pattern, or a catch-all):
+        `P => if g { A } else { B }` — the fall-through Rust performs.  Other shapes are not supported."""
+        scr, arms = e[1], list(e[2])
+        i = 0
+        while i < len(arms):
+            p, g, b = arms[i]
+            if g is not None:
+                nxt = None
+                for k in range(i + 1, len(arms)):
+                    q, g2, b2 = arms[k]
+                    if g2 is None and (q == p or q[0] in ("wild", "bind")):
+                        nxt = k; break
+                    if g2 is None and q[0] == "or": continue
+                if nxt is None: raise Unsupported("match guard without a later arm that covers the same values")
+                q, _, b2 = arms[nxt]
+                if q[0] == "bind": raise Unsupported("match guard falling through to a binding pattern")
+                bb = b if b[0] == "block" else ("block", [], b)
+                eb = b2 if b2[0] == "block" else ("block", [], b2)
+                arms[i] = (p, None, ("if", g, bb, eb))
+                if q == p: del arms[nxt]
+                # any arm strictly between i and nxt would be skipped by the fall-through: refuse
+                if nxt != i + 1: raise Unsupported("match guard with arms between it and its fall-through arm")
+            i += 1
+        return ("match", scr, arms)
     def match_head(self, e):
+        e = self.desugar_guards(e)
         scr, arms = e[1], e[2]
         tup = scr[0] == "tuple" and len(scr[1]) >= 2
         n = len(scr[1]) if tup else 1
@@ -1035,6 +1112,13 @@ class Emit:
     def diverges(self, s):
         return s[0] == "expr" and s[1][0] == "return"
     def tail(self, e, ind, mode):
+        saved = self.pre; self.pre = []
+        try:
+            L = self._tail(e, ind, mode)
+            return [ind + x for x in self.pre] + L
+        finally:
+            self.pre = saved
+    def _tail(self, e, ind, mode):
         k = e[0]
         if k in ("if", "iflet", "match") and not self.pure_expr(e):
             return self.branching(e, ind, mode)
@@ -1047,12 +1131,20 @@ class Emit:
     def ret(self, e, early=False):
         """the function's result `e` as a do-element"""
         v = None
+        while e[0] == "mcall" and ((e[2] in ERASED_METHODS and not e[3]) or e[2] in ("map_err", "with_context", "context")):
+            e = e[1]
         if self.cur_result:
             if e[0] == "call" and e[1] == ("path", ["Ok"]):
                 inner = e[2][0]
                 v = "()" if inner == ("tuple", []) else self.ex(inner)
             elif e[0] == "call" and e[1] == ("path", ["Err"]):
                 return "throw " + self.atom(e[2][0])
+            elif e[0] in ("call", "mcall") and self.effects and self.call_is_effectful(e) and self.cur_self != "mut":
+                raw, eff, res = self._call(e) if e[0] == "call" else self._mcall(e)
+                if res: return raw if not early else f"return (← {raw})"
+                return f"return (← Rs.liftE (← {raw}))"
+            elif self.effects and self.cur_self != "mut":
+                return f"Rs.liftE {self.atom(e)}" if not early else f"return (← Rs.liftE {self.atom(e)})"
             elif not early and self.cur_self != "mut":
                 return self.ex(e)
             else:
@@ -1089,6 +1181,13 @@ class Emit:
                 L += self.seq(b if b[0] == "block" else ("block", [], b), ind + "    ", mode)
             return L
     def stmt(self, s, ind):
+        saved = self.pre; self.pre = []
+        try:
+            L = self._stmt(s, ind)
+            return [ind + x for x in self.pre] + L
+        finally:
+            self.pre = saved
+    def _stmt(self, s, ind):
         if s[0] == "let":
             _, p, mut, ty, init, els = s
             if els is not None: raise Unsupported("let-else")
@@ -1149,6 +1248,10 @@ class Emit:
                 if m == "push" and len(args) == 1: return [ind + f"{x} := {x} ++ [{self.ex(args[0])}]"]
                 if m == "push_str" and len(args) == 1: return [ind + f"{x} := {x} ++ {self.ex(args[0])}"]
                 if m == "clear" and not args: return [ind + f"{x} := Rs.clear {x}"]
+                if m == "insert" and len(args) == 2: return [ind + f"{x} := Rs.insert_mut {x} {self.atom(args[0])} {self.atom(args[1])}"]
+                if m == "insert" and len(args) == 1: return [ind + f"{x} := Rs.set_insert {x} {self.atom(args[0])}"]
+                if m == "extend" and len(args) == 1: return [ind + f"{x} := Rs.extend {x} {self.atom(args[0])}"]
+                if m == "remove" and len(args) == 1: return [ind + f"{x} := Rs.remove_mut {x} {self.atom(args[0])}"]
                 for key, (ln, it) in self.local_fns.items():
                     if it["name"] == m and it["self"] == "mut" and len(it["params"]) == len(args):
                         pre = ["ext"] if ln in self.fns_using_ext else []
@@ -1160,9 +1263,15 @@ class Emit:
                 x = lname(recv[1][1][0]); f = lname(recv[2])
                 call = " ".join([f"Rs.{m}_mut", f"{x}.{f}"] + [self.atom(a) for a in args])
                 return [ind + f"{x} := {{ {x} with {f} := {call} }}"]
+            if self.effects and self.call_is_effectful(e):
+                return [ind + f"let _ ← {self.ex(e)[3:-1] if self.ex(e).startswith('(← ') else self.ex(e)}"]
             raise Unsupported(f"method call statement .{m}()")
         if k == "try":
-            return [ind + f"let _ ← {self.ex(e[1])}"]
+            v = self.ex(e)
+            return [ind + f"let _ ← {v[3:-1]}"] if v.startswith("(← ") and v.endswith(")") else [ind + f"let _ := {v}"]
+        if k == "call" and self.effects and self.call_is_effectful(e):
+            v = self.ex(e)
+            return [ind + f"let _ ← {v[3:-1]}"]
         raise Unsupported(f"statement {k}")
     def branching_or_block(self, e, ind, mode):
         if e[0] == "block": return self.seq(e, ind, mode)
@@ -1205,6 +1314,8 @@ class Emit:
         self.cur_ret_unit = it["ret"] is None or it["ret"] == ("tuple", [])
         self.ret_self_only = it["self"] == "mut" and self.cur_ret_unit
         self.cur_uses_ext = False
+        self.cur_opt = it["ret"] is not None and it["ret"][0] == "app" and it["ret"][1] == "Option"
+        self.qn = 0
         params = []
         if it["self"]: params.append(f"(self : {it['owner']})")
         for p, t in it["params"]:
@@ -1218,16 +1329,19 @@ class Emit:
             if self.cur_result: raise Unsupported("&mut self method returning Result")
             rty = it["owner"] if self.cur_ret_unit else f"({rty} × {it['owner']})"
         body = it["body"]
-        simple = (not body[1]) and body[2] is not None and self.pure_expr(body[2]) and it["self"] != "mut" and not self.cur_result
+        effectful = self.effects and ln in self.fns_using_ext
+        if effectful and self.cur_result: rty = f"(Rs.M W {rty_inner})"
+        elif effectful: rty = f"(Rs.M W {rty})"
+        simple = (not body[1]) and body[2] is not None and self.pure_expr(body[2]) and it["self"] != "mut" and not self.cur_result and not effectful
         if simple:
             text = "\n  " + self.ex(body[2])
         else:
             L = []
             if it["self"] == "mut": L.append("  let mut self := self")
             L += self.seq(body, "  ", "ret")
-            head = "do" if self.cur_result else "Id.run do"
+            head = "do" if (self.cur_result or effectful) else "Id.run do"
             text = " " + head + "\n" + "\n".join(L)
-        pre = " (ext : Ext)" if (self.cur_uses_ext or ln in self.fns_using_ext) else ""
+        pre = (" {W : Type} (ext : Ext W)" if self.effects else " (ext : Ext)") if (self.cur_uses_ext or ln in self.fns_using_ext) else ""
         if self.cur_uses_ext and ln not in self.fns_using_ext: raise _NeedsExt(ln)
         return f"def {ln}{pre} " + " ".join(params) + f" : {rty} :={text}"
 
@@ -1317,6 +1431,17 @@ def translate_unit(unit, repo):
         if it["kind"] == "struct": em.structs[it["name"]] = it
         if it["kind"] == "const": em.consts.add(it["name"])
         if it["kind"] == "fn": em.local_fns[key] = (ln, it)
+    for ent in unit.get("uses", []):
+        f, key, ln = ent[0], ent[1], ent[2]
+        its = items_of(f)
+        if key not in its or its[key]["kind"] == "error": raise Unsupported(f"{f}: used item `{key}` not available")
+        it = dict(its[key])
+        if it["kind"] == "enum": em.enums[it["name"]] = it
+        elif it["kind"] == "struct": em.structs[it["name"]] = it
+        elif it["kind"] == "const": em.consts.add(it["name"])
+        elif it["kind"] == "fn":
+            it["_used"] = True; it["_ext"] = ent[3] if len(ent) > 3 else None
+            em.local_fns[key] = (ln, it)
     em.fns_using_ext = set()
     while True:
         try:
@@ -1344,9 +1469,11 @@ def render(unit, out, em):
          "import SyModel.Generated.Prelude"] + [f"import {m}" for m in unit.get("imports", [])] + [
          "set_option linter.unusedVariables false", f"namespace SyModel.Generated.{ns}", "open SyModel.Generated"]
     for o in unit.get("opens", []): L.append(f"open {o}")
-    if unit.get("externs"):
+    if unit.get("externs") or unit.get("ext_methods"):
         L.append("/-- functions called by the translated code that are outside the translated subset (parameters of the model) -/")
-        L.append("structure Ext where\n" + "\n".join(f"  {lname(n)} : {t}" for n, t in unit["externs"].items()))
+        ty_of = lambda t: t["type"] if isinstance(t, dict) else t
+        fields = [(lname(n), ty_of(t)) for n, t in unit["externs"].items()] + [(m["name"], m["type"]) for m in unit.get("ext_methods", {}).values()]
+        L.append(("structure Ext (W : Type) where\n" if unit.get("effects") else "structure Ext where\n") + "\n".join(f"  {n} : {t}" for n, t in fields))
     if unit.get("preamble"): L.append(unit["preamble"])
     L += out
     L.append(f"end SyModel.Generated.{ns}")
